@@ -63,7 +63,11 @@ Record KindOK : Type := mkKindOK {
         (finner s = false /\ finner s' = true /\ fi s' = fi s /\ fj s' = fj s /\ fr s' = fr s)));
   Abs_final : forall I J sb O, Abs I J sb O -> s_inner sb = false ->
     0 <= I <= len L -> 0 <= J <= len R -> (I = len L \/ J = len R) ->
-    O ++ (if emit then unmatched inv I (len L) else []) = join_spec emit inv L R
+    O ++ (if emit then unmatched inv I (len L) else []) = join_spec emit inv L R;
+  (* E3 (C12): whatever has been emitted so far is a prefix of the final join, hence
+     len O <= len (join_spec ...) — the basis of the LINEAR bound on driver iterations *)
+  Abs_prefix : forall I J sb O, Abs I J sb O -> 0 <= I <= len L -> 0 <= J <= len R ->
+    exists rest, join_spec emit inv L R = O ++ rest
 }.
 
 End Iface.
